@@ -52,6 +52,17 @@ def decl_after_failure_class(lines, per):
     return False
 
 
+def stale_slot_class(lines, per):
+    """stale_slot_after_failed_initialiser (D30): a line failed at run time in a `stel`, after a top-level block that declared
+    a variable had been closed earlier in the session (the declared name sits on the dead variable's slot)"""
+    for i, (l, o) in enumerate(zip(lines, per)):
+        if re.match(r"ERR (Type|Index|Argument)", o) and re.search(r"\bstel\b", l):
+            before = " ; ".join(lines[:i]) + " ; " + l
+            if re.search(r"\{[^}]*\bstel\b", before):
+                return True
+    return False
+
+
 def canon_model(o):
     """operands left behind by a failing instruction are not compared (never observable: the next run starts clean)"""
     return re.sub(r"(ERR \w+ OUT \S+ ST )\d+", r"\1?", o)
@@ -83,7 +94,8 @@ def run(ctx, log):
     pool = ALPHA + EXTRA
     for _ in range(1000 if ctx.quick else 20000):
         sessions.append([rng.choice(pool) for _ in range(rng.randint(4, 12))])
-    sessions += [["1 / 0; stel c = 5", "c"], ["stel a = 1", "a = 2; [1][3]; stel d = a", "d"], ["stel c = 1 / 0", "c"], ["stel a = 1", "a = 7; ja + 1", "a"]]
+    sessions += [["1 / 0; stel c = 5", "c"], ["stel a = 1", "a = 2; [1][3]; stel d = a", "d"], ["stel c = 1 / 0", "c"], ["stel a = 1", "a = 7; ja + 1", "a"],
+                 ["{ stel a = 5 }", "stel b = 1 / 0", "b"], ["{ stel a = 5 }; stel b = 1 / 0", "b"], ["stel q = 1", "als ja { stel t = 41; t }", "stel r = ja + 1", "r"]]
     budgets = [100000] * len(sessions)
     scalar_alpha_pre = ["stel a = 1", "stel b = a + 1", "a = a + 1", "a + b", "stel a = 5; a", "a == b", "stel d = a; stel d = d + 1; d"]
     # every abort point k for a sample of sessions (the line is cut short after k instructions)
@@ -161,6 +173,12 @@ def run(ctx, log):
                         if "D29" not in known_seen:
                             known_seen.add("D29")
                             ctx.known.append("D29 (declaration_after_runtime_failure): %s" % " ;; ".join(sessions[gi]))
+                        continue
+                    if stale_slot_class(sessions[gi], per_gi):
+                        ctx.count("known-class-D30")
+                        if "D30" not in known_seen:
+                            known_seen.add("D30")
+                            ctx.known.append("D30 (stale_slot_after_failed_initialiser): %s" % " ;; ".join(sessions[gi]))
                         continue
                     ns += 1
                     spec = "(not recomputed)"
